@@ -1791,8 +1791,12 @@ class ECDHCipherText(CipherText):
         # unwrap and unpad m
         _m = aes_key_unwrap(z, self.c, default_backend())
 
-        padder = PKCS7(64).unpadder()
-        return padder.update(_m) + padder.finalize()
+        # RFC 6637, section 8: the padding is in the style of PKCS5, but a sender may add more than one block
+        # of it (GnuPG pads every AES session key to 40 octets), which a PKCS7(64) unpadder refuses
+        padlen = _m[-1] if len(_m) else 0
+        if not 0 < padlen <= len(_m) or _m[-padlen:] != bytes([padlen]) * padlen:
+            raise PGPDecryptionError("Invalid padding in the decrypted session key")
+        return _m[:-padlen]
 
     def __init__(self):
         super(ECDHCipherText, self).__init__()
